@@ -477,6 +477,12 @@ class World:
         sh('echo %s > %s; git add %s; git commit -q --amend -m forced' % (fn, fn, fn), t)
         sh('git push -q -f origin %s' % branch, t)
 
+    def third_rewind(self, branch):
+        t = self.third
+        sh('git fetch -q --prune origin; git checkout -q -B %s origin/%s' % (branch, branch), t)
+        sh('git reset -q --hard HEAD~1', t)
+        sh('git push -q -f origin %s' % branch, t)
+
     def reject_refs(self, names):
         path = os.path.join(self.bare, 'verif_reject')
         if names:
